@@ -184,7 +184,7 @@ PREWARM_MOD = 4
 def prewarm(lic, text, kw):
     """Calls that must not influence the one under observation (answers depend only on table and input): for one
     text in four (chosen by a checksum of the text, so a replay repeats it) the same text is first parsed on the same
-    instance under every other flag combination and once under another spacing; outcomes are ignored.
+    instance under every other flag combination, once under another spacing and twice in other letter cases; outcomes are ignored.
     The order of these calls is a pseudo-random function of the text."""
     import random
     import zlib
@@ -201,10 +201,11 @@ def prewarm(lic, text, kw):
                 lic.parse(text, **f)
             except Exception:  # noqa
                 pass
-    try:
-        lic.parse(' ' + text.replace(' ', '  '), **cur)
-    except Exception:  # noqa
-        pass
+    for other in (' ' + text.replace(' ', '  '), text.swapcase(), text.upper()):     # another spacing, other letter cases
+        try:
+            lic.parse(other, **cur)
+        except Exception:  # noqa
+            pass
 
 
 def parse_c(lic, text, **kw):
